@@ -1,5 +1,7 @@
 package props
 
+import "bytes"
+
 // enumLex runs f over the lex19 space in batches.
 func (c *Ctx) enumSpace(alpha [][]byte, maxLen int, space string, f func(batch [][]byte, space string)) {
 	var batch [][]byte
@@ -28,7 +30,8 @@ func (c *Ctx) lexerExploration() {
 	// escape sequences: every \uXXXX over an alphabet of hex digits of both cases, near-hex letters,
 	// control bytes that differ from digits in one bit, a quote, a blank and a non-ASCII byte pair
 	var escs [][]byte
-	hexish := [][]byte{{'0'}, {'1'}, {'9'}, {'a'}, {'F'}, {'g'}, {'D'}, {'8'}, {0x10}, {0x19}, {0x1f}, {' '}, {'"'}, {0xc3, 0xa9}}
+	// and the characters number parsers of standard libraries take besides digits (sign, separator, radix mark)
+	hexish := [][]byte{{'0'}, {'1'}, {'9'}, {'a'}, {'F'}, {'g'}, {'D'}, {'8'}, {0x10}, {0x19}, {0x1f}, {' '}, {'"'}, {0xc3, 0xa9}, {'+'}, {'-'}, {'_'}, {'x'}}
 	EnumUpTo(hexish, 4, func(s []byte) {
 		if len(s) >= 3 {
 			escs = append(escs, append(append([]byte("\"\\u"), s...), '"'), append(append([]byte("\"a\\u"), s...), []byte("z\" b")...))
@@ -45,6 +48,21 @@ func (c *Ctx) lexerExploration() {
 		}
 	}
 	c.lexSweep(trunc, "truncations")
+	// long lines: buffer sizes of standard-library readers (4 KiB, 64 KiB) must not show in token values —
+	// block strings, quoted strings, comments and names with one line of exactly / just around such a size
+	var long [][]byte
+	for _, n := range []int{4095, 4096, 4097, 65534, 65535, 65536, 65537, c.Pick(100000, 1<<20)} {
+		x := bytes.Repeat([]byte("x"), n)
+		sp := bytes.Repeat([]byte(" "), n)
+		long = append(long,
+			[]byte("\"\"\"\n  first\n  "+string(x)+"\n    last\n\"\"\" b"),
+			[]byte("\"\"\"\n"+string(x[:n-2])+"\n  second\r\n   third\"\"\""),
+			[]byte("\"\"\""+string(x)+"\n  y\n z\"\"\""),
+			[]byte("\"\"\"\n a\n"+string(sp)+"\n  b\n"+string(sp)+"c\"\"\""),
+			[]byte("{ f(a: \""+string(x)+"\\u0041\") } # "+string(x)+"\r\n"+string(x)+" 1"),
+		)
+	}
+	c.lexSweep(long, "long-lines")
 	// repository corpus and random long inputs
 	qs, ss := RepoGraphQLInputs()
 	var corpus [][]byte
@@ -67,7 +85,7 @@ func (c *Ctx) lexerExploration() {
 	}
 	c.lexSweep(rnd, "random")
 	c.Ev.Exhaustive = true
-	c.Ev.Rule = "exhaustive: every string of ≤N symbols over lex19 (19 lexically significant symbols) and lexraw16 (raw bytes), every block-string body of ≤M symbols over 6 symbols (two variants), every \\uXXXX escape over a 14-symbol alphabet of hex and near-hex bytes, every prefix of 16 look-ahead-heavy literals; plus the repository's own test inputs, their random mutations and random byte strings. Non-trivial: ≥2 tokens, or a lexical error after ≥1 token; distinct by observation."
+	c.Ev.Rule = "exhaustive: every string of ≤N symbols over lex19 (19 lexically significant symbols) and lexraw16 (raw bytes), every block-string body of ≤M symbols over 6 symbols (two variants), every \\uXXXX escape over an 18-symbol alphabet of hex, near-hex, sign/separator/radix bytes, every prefix of 16 look-ahead-heavy literals, literals with one line of 4 KiB / 64 KiB / larger; plus the repository's own test inputs, their random mutations and random byte strings. Non-trivial: ≥2 tokens, or a lexical error after ≥1 token; distinct by observation."
 }
 
 func init() {
